@@ -30,6 +30,7 @@ type Pointer struct {
 	Path []int // struct field / array index path from the object's root value
 	BIdx *Term // non-nil: points at byte element BIdx of the ByteArr located at Path
 	Gen  int   // generation of a recycled pool buffer this reference was obtained for
+	ALen int   // >0: *[ALen]byte view starting at byte BIdx (slice-to-array-pointer conversion)
 	Fn   *ssa.Function // pointer-like handle for *ssa.Function globals (unused)
 }
 
